@@ -81,9 +81,78 @@ let pace t : string =
       | _ -> "R:" ^ fmt_groups (groups_to_list s'.groups)) evs in
   cat out
 
+(* ---- configuration + the loop it configures ---- *)
+let opt_of_tok (s : string) : z option =
+  if s = "-" then None
+  else match s.[0] with
+    | 'L' | 'F' | 'S' -> Some (zs (String.sub s 1 (String.length s - 1)))
+    | _ -> Some (zs s)
+
+let cfg t : string =
+  let _src = next t in
+  let _root = next t in
+  let _slow = next t in
+  let mods = next_list t (fun t ->
+    let _id = next t in
+    let _cls = next t in
+    let iv = opt_of_tok (next t) in
+    let sv = opt_of_tok (next t) in
+    let th = opt_of_tok (next t) in
+    { mc_interval = iv; mc_send = sv; mc_threshold = th }) in
+  let mi = configure_min mods in
+  let _now0 = next t in
+  let gl = next_list t (fun t -> let g = pos_of_string (next t) in let le = next_z t in (g, le)) in
+  let step = step_s mi in
+  let s = ref (init_state true (groups_of_list gl)) in
+  let app evs = s := fst (feed step !s evs) in
+  let settle_now () = s := fst (settle step !s) in
+  let pend () = match !s.ph with Locking -> "L" | Unlocking -> "U" | Crashed -> "X" | _ -> "-" in
+  let evals acts =
+    let gs = List.filter_map (fun a -> match a with Eval (g, _) -> Some (ZA.to_int (zt_of_pos g)) | _ -> None) acts in
+    String.concat "," (List.map string_of_int (List.sort compare gs)) in
+  settle_now ();
+  let nev = next_int t in
+  let out = ref [ "NM:" ^ string_of_int (List.length mods); "MI:" ^ sz mi ] in
+  let stop = ref false in
+  for _ = 1 to nev do
+    if not !stop then begin
+      let o = match next t with
+        | "k" ->
+            let now = next_z t in
+            settle_now ();
+            if !s.ph = Unlocking then (app [UnlockOk]; settle_now ());
+            let bad = !s.ph <> Locking in
+            app [LockOk]; settle_now ();
+            let (s', acts) = step !s (Tick now) in
+            s := s';
+            (if bad then "!" else "") ^ "K:" ^ evals acts
+        | "e" ->
+            settle_now ();
+            let bad = !s.ph <> Locking in
+            app [LockErr]; settle_now ();
+            (if bad then "!" else "") ^ "E" ^ pend ()
+        | "x" -> app [Expired]; settle_now (); "X" ^ pend ()
+        | "t" ->
+            let now = next_z t in
+            let (s', acts) = step !s (Tick now) in
+            s := s';
+            "T:" ^ evals acts
+        | "r" ->
+            let now = next_z t in
+            let pres = next_list t (fun t -> let g = pos_of_string (next t) in let r = next_z t in (g, r)) in
+            let (s', acts) = step !s (Refresh (now, pres)) in
+            s := s';
+            if List.mem Panic acts then (stop := true; "PANIC") else "R:" ^ fmt_groups (groups_to_list s'.groups)
+        | k -> failwith ("drv_evalloop: unknown cfg event " ^ k) in
+      out := o :: !out
+    end
+  done;
+  cat (List.rev !out)
+
 let run (line : string) : string =
   let t = toks_of_line line in
   match next t with
   | "loop" -> loop t
   | "pace" -> pace t
+  | "cfg" -> cfg t
   | k -> failwith ("drv_evalloop: unknown case kind " ^ k)
